@@ -118,18 +118,20 @@ pub fn run_client_racy(cfg: &ScenCfg, out: &mut RunOut) {
     let mut faults: Vec<Fault> = Vec::new();
     let mut conns: Vec<ConnState> = Vec::new();
     let mut enables: Vec<u64> = Vec::new();
+    // process stalls (clock jumps): a deadline inside one is served when the stall ends
+    let mut jumps: Vec<(u64, u64)> = Vec::new();
     let mut next_id = 0usize;
     let mut trace: Vec<String> = Vec::new();
     let mut wl = dec_idx as u64 ^ (qcap as u64) << 8;
     let timeouts = [5 * MS, 50 * MS, 400 * MS];
     let turns = 15 + choose(60) as usize;
     let inject = cfg.faults;
+    // the last enable/disable command submitted (commands are processed in order)
+    let mut last_ctrl: Option<bool> = None;
     // most runs start enabled
     if chance(3, 4) {
-        let c = ch.clone();
-        simtokio::task::spawn_named("cmd", async move {
-            let _ = c.enable().await;
-        });
+        last_ctrl = Some(true);
+        let _ = kernel::block_on(ch.enable());
         enables.push(kernel::now_ns());
     }
     for _turn in 0..turns {
@@ -144,7 +146,7 @@ pub fn run_client_racy(cfg: &ScenCfg, out: &mut RunOut) {
                 opened_at: kernel::now_ns(),
             });
         }
-        match weighted(&[6, 8, 5, 2, 1]) {
+        match weighted(&[6, 8, 5, 2, 1, if inject { 2 } else { 0 }]) {
             0 => {
                 // a burst of submissions through different handles and styles
                 for _ in 0..1 + choose(3) {
@@ -295,15 +297,14 @@ pub fn run_client_racy(cfg: &ScenCfg, out: &mut RunOut) {
                 match weighted(&[3, 2, 2]) {
                     0 => {
                         enables.push(kernel::now_ns());
-                        simtokio::task::spawn_named("cmd", async move {
-                            let _ = c.enable().await;
-                        });
+                        last_ctrl = Some(true);
+                        // sent from the director so that control commands are queued in submission order
+                        let _ = kernel::block_on(c.enable());
                         trace.push(format!("t={} enable", kernel::now_ns()));
                     }
                     1 => {
-                        simtokio::task::spawn_named("cmd", async move {
-                            let _ = c.disable().await;
-                        });
+                        last_ctrl = Some(false);
+                        let _ = kernel::block_on(c.disable());
                         trace.push(format!("t={} disable", kernel::now_ns()));
                     }
                     _ => {
@@ -313,6 +314,22 @@ pub fn run_client_racy(cfg: &ScenCfg, out: &mut RunOut) {
                         });
                     }
                 }
+            }
+            5 => {
+                // process stall: the clock jumps while tasks may be woken but not yet polled, so
+                // several deadlines and pending wake-ups are served in one go
+                let d = match kernel::next_timer() {
+                    Some(t) if t > kernel::now_ns() => match choose(3) {
+                        0 => t - kernel::now_ns(),
+                        1 => t - kernel::now_ns() + 1,
+                        _ => (t - kernel::now_ns()) * 2,
+                    },
+                    _ => 1 * MS,
+                };
+                let before = kernel::now_ns();
+                kernel::jump(d.min(2_000 * MS));
+                jumps.push((before, kernel::now_ns()));
+                out.probe("racy_clock_jump");
             }
             _ => {
                 if inject {
@@ -353,6 +370,8 @@ pub fn run_client_racy(cfg: &ScenCfg, out: &mut RunOut) {
         }
     }
     wire.sort_by_key(|f| (f.t, f.conn));
+    // the instant at which something due at `deadline` is actually served
+    let served_at = |deadline: u64| -> u64 { jumps.iter().find(|(a, b)| *a < deadline && deadline <= *b).map(|(_, b)| *b).unwrap_or(deadline) };
     // 1. exactly once
     let mut by_id: BTreeMap<usize, Vec<(u64, Outcome)>> = BTreeMap::new();
     for (id, t, o) in &comps {
@@ -374,6 +393,9 @@ pub fn run_client_racy(cfg: &ScenCfg, out: &mut RunOut) {
     // 2. justification of every outcome
     for (id, s) in &subs {
         let (t_done, outcome) = by_id[id][0].clone();
+        // a process stall while the request was in flight delays both the library's timers and the
+        // moment the caller's task observes the result: exact instants are only demanded without one
+        let stalled = jumps.iter().any(|(a, b)| *b >= s.t_submit && *a <= t_done);
         let want_pdu = pdu::encode_req(&s.req);
         let sent: Vec<&WireFrame> = wire.iter().filter(|f| f.pdu == want_pdu && f.unit == s.unit).collect();
         if sent.len() > 1 {
@@ -407,7 +429,7 @@ pub fn run_client_racy(cfg: &ScenCfg, out: &mut RunOut) {
                     out.violate("C04", "racy/unjustified_result", d);
                     return;
                 }
-                if t_done > f.t + s.timeout {
+                if !stalled && t_done > served_at(f.t + s.timeout) {
                     let d = format!("request {} succeeded at {} although its deadline was {}", id, t_done, f.t + s.timeout);
                     out.violate("C12", "racy/success_after_deadline", d);
                     return;
@@ -421,18 +443,18 @@ pub fn run_client_racy(cfg: &ScenCfg, out: &mut RunOut) {
                         return;
                     }
                 };
-                if t_done != f.t + s.timeout {
-                    let d = format!("request {} transmitted at {} with timeout {} completed with a timeout at {} (expected {})", id, f.t, s.timeout, t_done, f.t + s.timeout);
+                if (stalled && t_done < f.t + s.timeout) || (!stalled && t_done != f.t + s.timeout) {
+                    let d = format!("request {} transmitted at {} with timeout {} completed with a timeout at {} (expected {})", id, f.t, s.timeout, t_done, served_at(f.t + s.timeout));
                     out.violate("C12", "racy/timeout_instant", d.clone());
                     out.violate("C10", "racy/timeout_instant", d);
                     return;
                 }
                 // no valid matching reply was readable strictly before the deadline
-                let early = replies.iter().find(|r| r.conn == f.conn && r.tx == f.tx && r.ready_at < t_done && !matches!(pdu::decode_reply(&s.req, &r.pdu), pdu::ReplyClass::Bad));
+                let early = replies.iter().find(|r| r.conn == f.conn && r.tx == f.tx && served_at(r.ready_at) < t_done && !matches!(pdu::decode_reply(&s.req, &r.pdu), pdu::ReplyClass::Bad));
                 if let Some(r) = early {
                     // unless the connection died before it could be read
                     let died = faults.iter().any(|x| x.conn == f.conn && x.t <= t_done);
-                    if !died {
+                    if !died && !stalled {
                         let d = format!("request {} timed out at {} although a valid reply was readable at {}", id, t_done, r.ready_at);
                         out.violate("C12", "racy/timeout_despite_reply", d.clone());
                         out.violate("C10", "racy/timeout_despite_reply", d);
@@ -447,7 +469,7 @@ pub fn run_client_racy(cfg: &ScenCfg, out: &mut RunOut) {
                     return;
                 }
                 let st = state_at(&states, t_done);
-                if !st.is_empty() && st.iter().all(|s| *s == MState::Connected) {
+                if !stalled && !st.is_empty() && st.iter().all(|s| *s == MState::Connected) {
                     let d = format!("request {} failed with NoConnection at {} while the listener-observed state was Connected throughout that instant", id, t_done);
                     out.violate("C10", "racy/no_connection_while_connected", d.clone());
                     out.violate("C13", "racy/no_connection_while_connected", d);
@@ -499,7 +521,9 @@ pub fn run_client_racy(cfg: &ScenCfg, out: &mut RunOut) {
             let prev_req = subs.iter().find(|(_, s)| pdu::encode_req(&s.req) == p.pdu && s.unit == p.unit).map(|(id, _)| *id);
             if let Some(pid) = prev_req {
                 let done = by_id[&pid][0].0;
-                if done > f.t {
+                // (the caller may observe the completion late if a process stall intervened)
+                let lagged = jumps.iter().any(|(a, b)| *b >= subs[&pid].t_submit && *a <= done);
+                if done > f.t && !lagged {
                     let d = format!("frame for tx {} was written at {} while request {} (tx {}) was still outstanding until {}", f.tx, f.t, pid, p.tx, done);
                     out.violate("C11", "racy/two_outstanding", d);
                     return;
@@ -527,7 +551,7 @@ pub fn run_client_racy(cfg: &ScenCfg, out: &mut RunOut) {
             return;
         }
         if let (Some((t0, MState::WaitAfterFailedConnect(d) | MState::WaitAfterDisconnect(d))), MState::Connecting) = (last, s) {
-            if *t != t0 + d {
+            if *t != served_at(t0 + d) {
                 let msg = format!("announced a wait of {} ns at {} but the next attempt started at {}", d, t0, t);
                 out.violate("C14", "racy/wait_not_honoured", msg.clone());
                 out.violate("C13", "racy/wait_not_honoured", msg);
@@ -594,6 +618,23 @@ pub fn run_client_racy(cfg: &ScenCfg, out: &mut RunOut) {
                     }
                 }
                 _ => {}
+            }
+        }
+    }
+    // no command is lost: after the drain the channel is in the state the last enable/disable asked for
+    if let Some((_, last_state)) = states.last() {
+        match last_ctrl {
+            Some(false) | None => {
+                if *last_state != MState::Disabled {
+                    out.violate("C13", "racy/disable_lost", format!("the last control command was disable (or none), yet long after it the listener state is {:?}: {:?}", last_state, &states[states.len().saturating_sub(5)..]));
+                    return;
+                }
+            }
+            Some(true) => {
+                if *last_state == MState::Disabled {
+                    out.violate("C13", "racy/enable_lost", format!("the last control command was enable, yet long after it the listener state is Disabled: {:?}", &states[states.len().saturating_sub(5)..]));
+                    return;
+                }
             }
         }
     }
